@@ -21,18 +21,24 @@ package sync
 // wrong direction.
 
 import (
+	"encoding/json"
 	"fmt"
 	"sort"
 	"strings"
+	gosync "sync"
 	"testing"
 
 	"container/list"
 
 	"github.com/ChainSafe/gossamer/dot/network/messages"
 	"github.com/ChainSafe/gossamer/dot/types"
+	"github.com/ChainSafe/gossamer/internal/database"
 	"github.com/ChainSafe/gossamer/internal/log"
 	kit "github.com/ChainSafe/gossamer/internal/verifkit"
 	"github.com/ChainSafe/gossamer/lib/common"
+	"github.com/ChainSafe/gossamer/lib/runtime"
+	rtstorage "github.com/ChainSafe/gossamer/lib/runtime/storage"
+	"github.com/ChainSafe/gossamer/pkg/trie/inmemory"
 	"github.com/libp2p/go-libp2p/core/peer"
 	"pgregory.net/rapid"
 )
@@ -50,6 +56,10 @@ type c32State struct {
 	BlockState
 	known     map[common.Hash]*types.Header
 	finalised *types.Header
+	// only used below the real blockImporter (TestC32ProcessRealImporter)
+	rt            runtime.Instance
+	onMissingHdr  func(common.Hash)
+	justification map[common.Hash]int // SetJustification calls per block
 }
 
 func (s *c32State) HasHeader(h common.Hash) (bool, error) { _, ok := s.known[h]; return ok, nil }
@@ -57,6 +67,37 @@ func (s *c32State) GetHighestFinalisedHeader() (*types.Header, error) {
 	return s.finalised, nil
 }
 func (s *c32State) IsPaused() bool { return false }
+
+// The calls blockImporter.processBlockData / handleBlock make on the block state.
+func (s *c32State) GetHeader(h common.Hash) (*types.Header, error) {
+	hdr, ok := s.known[h]
+	if !ok {
+		if s.onMissingHdr != nil {
+			s.onMissingHdr(h)
+		}
+		return nil, database.ErrNotFound
+	}
+	return hdr, nil
+}
+func (s *c32State) GetRuntime(common.Hash) (runtime.Instance, error) { return s.rt, nil }
+func (s *c32State) SetFinalisedHash(h common.Hash, _, _ uint64) error {
+	hdr, ok := s.known[h]
+	if !ok {
+		return fmt.Errorf("c32 state: finalising the unknown block %s", h)
+	}
+	if hdr.Number > s.finalised.Number {
+		s.finalised = hdr
+	}
+	return nil
+}
+func (s *c32State) SetJustification(h common.Hash, _ []byte) error {
+	if s.justification == nil {
+		s.justification = map[common.Hash]int{}
+	}
+	s.justification[h]++
+	return nil
+}
+func (s *c32State) CompareAndSetBlockData(*types.BlockData) error { return nil }
 
 type c32Call struct {
 	resp     int // index of the response the BlockData object came from
@@ -122,7 +163,7 @@ func (im *c32Importer) importBlock(bd *types.BlockData, _ BlockOrigin) (bool, er
 	return true, nil
 }
 
-func c32NewStrategy(st *c32State, im *c32Importer) *FullSyncStrategy {
+func c32NewStrategy(st *c32State, im importer) *FullSyncStrategy {
 	return &FullSyncStrategy{
 		blockState:    st,
 		numOfTasks:    defaultNumOfTasks,
@@ -131,6 +172,173 @@ func c32NewStrategy(st *c32State, im *c32Importer) *FullSyncStrategy {
 		requestQueue:  &requestsQueue[*messages.BlockRequestMessage]{queue: list.New()},
 		peers:         &peerViewSet{view: make(map[peer.ID]peerView), target: 0},
 	}
+}
+
+// ------------------------------------------------------------------ the real blockImporter over fakes
+
+// c32Real puts the REAL blockImporter (dot/sync/block_importer.go: importBlock,
+// processBlockData, processBlockDataWithHeaderAndBody, handleBlock) between
+// Process and the recording point. Below it: the tree-model block state, a
+// runtime instance whose ExecuteBlock records, a BlockImportHandler that
+// records and makes the block known (what core.Service.HandleBlockImport does
+// through BlockState.AddBlock), a finality gadget that accepts every
+// justification, and do-nothing storage / transaction / telemetry fakes.
+// "Handed to the importer" is observed where a block is executed and where it
+// is handed to the import handler; whether the importer's own "already
+// known" guard lets a block through is thereby part of what is checked.
+type c32Real struct {
+	*c32Importer // bookkeeping: source, bad, byHash, calls, violation
+	bi           *blockImporter
+
+	cur      *types.BlockData // BlockData object of the importBlock call in progress
+	curSrc   int
+	curBlk   int
+	handedIn int // HandleBlockImport calls during the importBlock call in progress
+
+	executed map[common.Hash]int
+	handed   map[common.Hash]int
+	round    int
+	knownAt  map[common.Hash]int // header hash -> Process round in which it was handed over
+
+	// coverage: calls in which an already known block arrived again
+	reKnown          int // ... at all
+	reJustifiedSame  int // ... carrying a justification, first handed over in the same Process round
+	reJustifiedLater int // ... carrying a justification, known since an earlier round (or initially)
+}
+
+type c32Runtime struct {
+	runtime.Instance // anything but the two calls of handleBlock panics
+	r                *c32Real
+}
+
+func (c32Runtime) SetContextStorage(runtime.Storage) {}
+func (rt c32Runtime) ExecuteBlock(block *types.Block) ([]byte, error) {
+	rt.r.handOver("executed", &block.Header, rt.r.executed)
+	return nil, nil
+}
+
+type c32Storage struct{ gosync.Mutex }
+
+var c32EmptyRoot = inmemory.NewEmptyTrie().MustHash()
+
+// every header of the generated trees has the root of the empty trie as state
+// root (handleBlock panics when the trie state of the parent does not hash to
+// the parent's state root)
+func (*c32Storage) TrieState(*common.Hash) (*rtstorage.TrieState, error) {
+	return rtstorage.NewTrieState(inmemory.NewEmptyTrie()), nil
+}
+
+type c32TxState struct{}
+
+func (c32TxState) RemoveExtrinsic(types.Extrinsic) {}
+
+type c32Telemetry struct{}
+
+func (c32Telemetry) SendMessage(json.Marshaler) {}
+
+type c32Babe struct{}
+
+func (c32Babe) VerifyBlock(*types.Header) error { return nil }
+
+type c32Finality struct{}
+
+func (c32Finality) VerifyBlockJustification(common.Hash, uint, []byte) (uint64, uint64, error) {
+	return 1, 0, nil
+}
+
+func c32NewReal(im *c32Importer) *c32Real {
+	r := &c32Real{c32Importer: im, executed: map[common.Hash]int{}, handed: map[common.Hash]int{}, knownAt: map[common.Hash]int{}}
+	im.st.rt = c32Runtime{r: r}
+	im.st.onMissingHdr = func(h common.Hash) {
+		if r.cur != nil && r.cur.Header != nil && r.cur.Header.ParentHash == h {
+			r.fail("block #%d (number %d, response %d) handed to the importer (execution) while its parent is unknown",
+				r.curBlk, r.cur.Header.Number, r.curSrc)
+		}
+	}
+	r.bi = newBlockImporter(&FullSyncConfig{
+		BlockState:         im.st,
+		StorageState:       &c32Storage{},
+		TransactionState:   c32TxState{},
+		BabeVerifier:       c32Babe{},
+		FinalityGadget:     c32Finality{},
+		BlockImportHandler: r,
+		Telemetry:          c32Telemetry{},
+	})
+	return r
+}
+
+func c32HasJustification(bd *types.BlockData) bool {
+	return bd.Justification != nil && len(*bd.Justification) > 0
+}
+
+// importBlock is what Process calls: it only notes which BlockData object is
+// being imported and passes it to the real blockImporter.
+func (r *c32Real) importBlock(bd *types.BlockData, origin BlockOrigin) (bool, error) {
+	src, ok := r.source[bd]
+	if !ok {
+		src = -1
+	}
+	call := c32Call{resp: src, blk: -1}
+	if bd.Header != nil {
+		if i, ok := r.byHash[bd.Header.Hash()]; ok {
+			call.blk = i
+		}
+		if _, known := r.st.known[bd.Header.Hash()]; known {
+			r.reKnown++
+			if c32HasJustification(bd) {
+				if at, ok := r.knownAt[bd.Header.Hash()]; ok && at == r.round {
+					r.reJustifiedSame++
+				} else {
+					r.reJustifiedLater++
+				}
+			}
+		}
+	}
+	r.cur, r.curSrc, r.curBlk, r.handedIn = bd, src, call.blk, 0
+	imported, err := r.bi.importBlock(bd, origin)
+	r.cur = nil
+	call.accepted = r.handedIn > 0
+	r.calls = append(r.calls, call)
+	return imported, err
+}
+
+// handOver is the oracle at the two points below the real importer.
+func (r *c32Real) handOver(what string, hdr *types.Header, count map[common.Hash]int) {
+	hash := hdr.Hash()
+	blk := -1
+	if i, ok := r.byHash[hash]; ok {
+		blk = i
+	}
+	if why, isBad := r.bad[r.curSrc]; isBad {
+		r.fail("block #%d (number %d) of response %d was %s although that response must be rejected: %s",
+			blk, hdr.Number, r.curSrc, what, why)
+	}
+	count[hash]++
+	_, known := r.st.known[hash]
+	if count[hash] > 1 || known {
+		how := "although it was already known"
+		if count[hash] > 1 {
+			how = fmt.Sprintf("%d times", count[hash])
+		}
+		r.fail("block #%d (number %d) %s %s (this time from response %d, justification: %v)",
+			blk, hdr.Number, what, how, r.curSrc, r.cur != nil && c32HasJustification(r.cur))
+	}
+	if _, parentKnown := r.st.known[hdr.ParentHash]; !parentKnown {
+		r.fail("block #%d (number %d, response %d) %s while its parent is unknown", blk, hdr.Number, r.curSrc, what)
+	}
+}
+
+// HandleBlockImport is the BlockImportHandler below the real importer.
+func (r *c32Real) HandleBlockImport(block *types.Block, _ *rtstorage.TrieState, _ bool) error {
+	r.handedIn++
+	r.handOver("handed to the import handler", &block.Header, r.handed)
+	hdr := block.Header
+	hash := hdr.Hash()
+	r.st.known[hash] = &hdr
+	if _, ok := r.knownAt[hash]; !ok {
+		r.knownAt[hash] = r.round
+	}
+	return nil
 }
 
 // ------------------------------------------------------------------ tree
@@ -147,9 +355,10 @@ func c32MakeTree(parent []int) *c32Tree {
 	for i, p := range parent {
 		var h *types.Header
 		if p < 0 {
-			h = types.NewHeader(common.Hash{}, common.Hash{0x32}, common.Hash{0xee}, 0, types.NewDigest())
+			h = types.NewHeader(common.Hash{}, c32EmptyRoot, common.Hash{0xee}, 0, types.NewDigest())
 		} else {
-			h = types.NewHeader(tr.hdr[p].Hash(), common.Hash{0x32, byte(i)}, common.Hash{byte(i), byte(i >> 8), 0x32},
+			// state root: see c32Storage; the extrinsics root keeps the headers distinct
+			h = types.NewHeader(tr.hdr[p].Hash(), c32EmptyRoot, common.Hash{byte(i), byte(i >> 8), 0x32},
 				tr.number[p]+1, types.NewDigest())
 		}
 		tr.hdr = append(tr.hdr, h)
@@ -183,6 +392,7 @@ type c32Resp struct {
 	who       peer.ID
 	completed bool
 	sent      string // payload as sent: tree index per item, '*' = stated hash is not the header hash
+	noJust    []int  // blocks of the case's justified set that this response carries WITHOUT their justification
 }
 
 func c32Sent(tr *c32Tree, payload []*types.BlockData) string {
@@ -215,6 +425,9 @@ func (r *c32Resp) String() string {
 		sb.WriteString("asc")
 	}
 	sb.WriteString(fmt.Sprint(r.blocks))
+	if len(r.noJust) > 0 {
+		sb.WriteString("!nojust" + fmt.Sprint(r.noJust))
+	}
 	if r.damage != "" {
 		sb.WriteString("!" + r.damage + "!sent=" + r.sent)
 	}
@@ -258,10 +471,14 @@ type c32Case struct {
 	justified map[int]bool // blocks that finalise themselves when accepted
 	resps     []*c32Resp
 	batches   [][]int // response indexes per batch, in feed order
+	real      bool    // Process drives the real blockImporter (c32Real) instead of the recording fake
 }
 
 func (c *c32Case) describe() string {
 	var sb strings.Builder
+	if c.real {
+		sb.WriteString("real-importer ")
+	}
 	fmt.Fprintf(&sb, "parents=%v pre=%d", c.tree.parent, c.pre)
 	if len(c.justified) > 0 {
 		var js []int
@@ -307,18 +524,33 @@ func c32Path(tr *c32Tree, end, maxLen int) []int {
 	return out
 }
 
-func c32Gen(t *rapid.T) *c32Case {
+// c32Gen generates a case. real = the case is meant for the real blockImporter:
+// the same tree / partition / damage / order generator, but finality in 2 of 3
+// cases (every k-th block, or a random subset of the blocks), up to 4 extra
+// chains of which some are exact re-sends of a response already in the case,
+// and a copy of a justified block may come without its justification (the
+// peer that answered did not have it).
+func c32Gen(t *rapid.T, real bool) *c32Case {
 	tr := c32GenTree(t)
 	n := len(tr.parent) - 1
-	c := &c32Case{tree: tr, justified: map[int]bool{}}
+	c := &c32Case{tree: tr, justified: map[int]bool{}, real: real}
 	if rapid.IntRange(0, 2).Draw(t, "hasPre") == 0 {
 		c.pre = rapid.IntRange(0, n/2).Draw(t, "pre")
 	}
-	if rapid.IntRange(0, 2).Draw(t, "finality") == 0 {
-		k := rapid.IntRange(2, 7).Draw(t, "justEvery")
-		for i := 1; i <= n; i++ {
-			if i%k == 0 {
-				c.justified[i] = true
+	fin := rapid.IntRange(0, 2).Draw(t, "finality")
+	if (!real && fin == 0) || (real && fin != 0) {
+		if !real || rapid.Bool().Draw(t, "justPeriodic") {
+			k := rapid.IntRange(2, 7).Draw(t, "justEvery")
+			for i := 1; i <= n; i++ {
+				if i%k == 0 {
+					c.justified[i] = true
+				}
+			}
+		} else {
+			for i := 1; i <= n; i++ {
+				if rapid.IntRange(0, 2).Draw(t, "justHere") == 0 {
+					c.justified[i] = true
+				}
 			}
 		}
 	}
@@ -348,7 +580,17 @@ func c32Gen(t *rapid.T) *c32Case {
 		chains = append(chains[:d], chains[d+1:]...)
 	}
 	// duplicates and overlapping chains (may reach into the known prefix)
-	for x := rapid.IntRange(0, 3).Draw(t, "extra"); x > 0; x-- {
+	maxExtra := 3
+	if real {
+		maxExtra = 4
+	}
+	for x := rapid.IntRange(0, maxExtra).Draw(t, "extra"); x > 0; x-- {
+		if real && len(chains) > 0 && rapid.IntRange(0, 2).Draw(t, "resend") == 0 {
+			// the same request answered once more (another peer, a retry): an exact re-send
+			again := chains[rapid.IntRange(0, len(chains)-1).Draw(t, "resendOf")]
+			chains = append(chains, append([]int(nil), again...))
+			continue
+		}
 		end := rapid.IntRange(1, n).Draw(t, "dupEnd")
 		chains = append(chains, c32Path(tr, end, rapid.IntRange(1, 8).Draw(t, "dupLen")))
 	}
@@ -387,7 +629,12 @@ func c32Gen(t *rapid.T) *c32Case {
 		r.who = peer.ID(fmt.Sprintf("c32-peer-%d", ri))
 		r.desc = rapid.IntRange(0, 3).Draw(t, "desc") == 0
 		for _, b := range r.blocks {
-			r.payload = append(r.payload, tr.blockData(b, c.justified[b]))
+			just := c.justified[b]
+			if just && real && rapid.IntRange(0, 3).Draw(t, "withoutJustification") == 0 {
+				just = false
+				r.noJust = append(r.noJust, b)
+			}
+			r.payload = append(r.payload, tr.blockData(b, just))
 		}
 		c32Damage(t, tr, r)
 		first, last := r.blocks[0], r.blocks[len(r.blocks)-1]
@@ -518,6 +765,9 @@ type c32Outcome struct {
 	reported  int // bad responses whose peer got a reputation change
 	knownAll  bool
 	violation string
+	// real importer only
+	reKnown, reJustifiedSame, reJustifiedLater int
+	finalised                                  bool // the finalised head moved
 }
 
 func c32Run(c *c32Case) c32Outcome {
@@ -535,7 +785,14 @@ func c32Run(c *c32Case) c32Outcome {
 			im.bad[ri] = r.bad
 		}
 	}
-	f := c32NewStrategy(st, im)
+	var real *c32Real
+	var f *FullSyncStrategy
+	if c.real {
+		real = c32NewReal(im)
+		f = c32NewStrategy(st, real)
+	} else {
+		f = c32NewStrategy(st, im)
+	}
 	var out c32Outcome
 	out.badCount = len(im.bad)
 	reported := map[peer.ID]bool{}
@@ -550,7 +807,14 @@ func c32Run(c *c32Case) c32Outcome {
 			results = append(results, &SyncTaskResult{who: r.who, completed: true, request: r.req,
 				response: &messages.BlockResponseMessage{BlockData: r.payload}})
 		}
+		if real != nil {
+			real.round = bi
+		}
 		done, reps, _, err := f.Process(results)
+		if im.violation != "" {
+			out.violation = fmt.Sprintf("batch %d: %s", bi, im.violation)
+			return out
+		}
 		if err != nil {
 			out.violation = fmt.Sprintf("batch %d: Process returned an error although the importer never fails: %v", bi, err)
 			return out
@@ -579,6 +843,10 @@ func c32Run(c *c32Case) c32Outcome {
 			out.reported++
 		}
 	}
+	if real != nil {
+		out.reKnown, out.reJustifiedSame, out.reJustifiedLater = real.reKnown, real.reJustifiedSame, real.reJustifiedLater
+	}
+	out.finalised = st.finalised != tr.hdr[0]
 	out.knownAll = true
 	for i := range tr.parent {
 		if _, ok := st.known[tr.hdr[i].Hash()]; !ok {
@@ -613,8 +881,21 @@ func c32OutOfOrder(c *c32Case) bool {
 
 func TestC32Process(t *testing.T) {
 	defer kit.Flush()
-	rapid.Check(t, func(t *rapid.T) {
-		c := c32Gen(t)
+	rapid.Check(t, func(t *rapid.T) { c32Property(t, false) })
+}
+
+// TestC32ProcessRealImporter: the same search with the real blockImporter
+// between Process and the recording point (see c32Real), and a generator that
+// lets already imported blocks arrive again with and without justifications,
+// in the same and in later Process rounds.
+func TestC32ProcessRealImporter(t *testing.T) {
+	defer kit.Flush()
+	rapid.Check(t, func(t *rapid.T) { c32Property(t, true) })
+}
+
+func c32Property(t *rapid.T, real bool) {
+	{
+		c := c32Gen(t, real)
 		out := c32Run(c)
 		if out.violation != "" {
 			t.Fatalf("%s\ncase: %s", out.violation, c.describe())
@@ -668,6 +949,29 @@ func TestC32Process(t *testing.T) {
 			labels = append(labels, "whole-tree-imported")
 		}
 		nontrivial := (completed >= 2 && ooo) || out.badCount > 0
+		if real {
+			labels = append(labels, "real-importer")
+			if out.finalised {
+				labels = append(labels, "finalised-head-moved")
+			}
+			if out.reKnown > 0 {
+				labels = append(labels, "known-block-reached-real-importer-again")
+			}
+			if out.reJustifiedSame > 0 {
+				labels = append(labels, "known-justified-block-again-same-round")
+			}
+			if out.reJustifiedLater > 0 {
+				labels = append(labels, "known-justified-block-again-later-round")
+			}
+			for _, r := range c.resps {
+				if len(r.noJust) > 0 {
+					labels = append(labels, "copy-without-justification")
+					break
+				}
+			}
+			// an already imported block that reaches the real importer again exercises its guard
+			nontrivial = nontrivial || out.reKnown > 0
+		}
 		kit.Case(c.describe(), nontrivial, labels...)
-	})
+	}
 }
